@@ -5,21 +5,21 @@ package jsonrpc
 // Contracts for contract-based deductive verification (checked by /verif/tool, see /verif/DESIGN.md).
 // This file contains comments only; it is compiled only with the build tag `verif` and adds no code.
 
-//@ property C10 units: normalizeID, (*wsConn).cancelCtx, (*wsConn).handleChanMessage, (*wsConn).handleChanClose, (*wsConn).handleResponse, (*wsConn).handleFrame, (*wsConn).frameExecutor, (*wsConn).handleCall, (*wsConn).readFrame, (*wsConn).nextMessage, (*handler).handleReader, (*handler).handle, rpcError, (*handler).createError, (response).MarshalJSON, (*handler).getSpan, (*JSONRPCError).val, (*rpcFunc).processResponse, (*client).makeOutChan$1$2
+//@ property C10 units: websocketClient, normalizeID, (*wsConn).cancelCtx, (*wsConn).handleChanMessage, (*wsConn).handleChanClose, (*wsConn).handleResponse, (*wsConn).handleFrame, (*wsConn).frameExecutor, (*wsConn).handleCall, (*wsConn).readFrame, (*wsConn).nextMessage, (*handler).handleReader, (*handler).handle, rpcError, (*handler).createError, (response).MarshalJSON, (*handler).getSpan, (*JSONRPCError).val, (*rpcFunc).processResponse, (*client).makeOutChan$1$2
 //@ property C09 units: (*handler).handleReader, (*handler).handle, (*handler).handle$1, rpcError, rpcError$1, (response).MarshalJSON, normalizeID, withLazyWriter, (*wsConn).handleCall, (*wsConn).handleOutChans$1
 //@ property C12 units: makeHandler, (*handler).register, (*handler).handle, processFuncOut, (*client).makeRpcFunc, NewMethodNameFormatter$1, (*RPCServer).AliasMethod, WithClientHandlerAlias$1
 //@ property C14 units: (*wsConn).nextWriter, (*wsConn).sendRequest, (*wsConn).setupPings, (*wsConn).setupPings$4, (*wsConn).handleWsConn, (*wsConn).tryReconnect, (*wsConn).tryReconnect$1, (*wsConn).handleOutChans, (*wsConn).handleCtxAsync, (*wsConn).nextMessage, (*wsConn).handleResponse, (*wsConn).handleCall, (*wsConn).handleCall$3, (*wsConn).cancelCtx, (*wsConn).handleChanMessage, (*wsConn).handleChanClose, (*wsConn).closeInFlight, (*wsConn).closeChans, (*wsConn).readFrame, (*wsConn).resetReadDeadline, withLazyWriter, (*lazyWriter).Write, (*lazyWriter).Write$1$1
-//@ property C05 units: (*backoff).next, (*wsConn).tryReconnect, (*wsConn).tryReconnect$1, (*wsConn).handleWsConn, websocketClient, (*rpcFunc).handleRpcCall
-//@ property C03 units: (*wsConn).handleWsConn, (*wsConn).tryReconnect, (*wsConn).tryReconnect$1, (*wsConn).closeInFlight, (*wsConn).nextMessage, (*wsConn).readFrame, (*client).setupRequestChan$1
+//@ property C05 units: WithErrors$1, NewErrors, (*JSONRPCError).val, (*backoff).next, (*wsConn).tryReconnect, (*wsConn).tryReconnect$1, (*wsConn).handleWsConn, websocketClient, (*rpcFunc).handleRpcCall
+//@ property C03 units: (*wsConn).resetReadDeadline, (*wsConn).handleWsConn, (*wsConn).tryReconnect, (*wsConn).tryReconnect$1, (*wsConn).closeInFlight, (*wsConn).nextMessage, (*wsConn).readFrame, (*client).setupRequestChan$1
 //@ property C02 units: (*rpcFunc).handleRpcCall, normalizeID, (*client).makeRpcFunc, (*client).setupRequestChan$1, httpClient$1, NewCustomClient$1, (*wsConn).handleWsConn, (*wsConn).handleResponse, (*wsConn).closeInFlight, (*wsConn).frameExecutor, (*wsConn).handleFrame, (*wsConn).handleCall, (*handler).handle, rpcError$1
 //@ property C04 units: (*rpcFunc).handleRpcCall, (*client).makeRpcFunc, (*client).provide, httpClient$1, (*wsConn).handleWsConn, (*wsConn).frameExecutor, (*wsConn).handleFrame, (*wsConn).handleCall, (*handler).handle, (*wsConn).closeInFlight, (*wsConn).closeChans, (*wsConn).tryReconnect, (*wsConn).tryReconnect$1
 //@ property C06 units: (*client).setupRequestChan$1, (*wsConn).handleCtxAsync, (*wsConn).handleResponse, (*wsConn).cancelCtx, (*wsConn).handleCall, (*wsConn).handleCall$2, (*wsConn).handleCall$3, (*handler).handle, (*wsConn).closeInFlight, (*RPCServer).ServeHTTP, (*handler).handleReader, httpClient$1, (*wsConn).handleFrame
 //@ property C15 units: (*wsConn).handleWsConn, (*wsConn).handleCall, (*wsConn).closeInFlight, (*wsConn).nextWriter, (*wsConn).readFrame, (*wsConn).frameExecutor, (*client).sendRequest, (*client).setupRequestChan$1, (*wsConn).handleOutChans, (*wsConn).handleChanOut, withLazyWriter, (*lazyWriter).Write, (*lazyWriter).Write$1$1, (*RPCServer).handleWS
 //@ property C16 units: WithReverseClient$1$1, ExtractReverseClient, (*RPCServer).handleWS, (*RPCServer).ServeHTTP, (*client).setupRequestChan$1, (*wsConn).handleChanOut, websocketClient, WithClientHandlerAlias$1, (*wsConn).closeInFlight, (*wsConn).handleWsConn
 //@ property C07 units: (*wsConn).handleOutChans, (*wsConn).handleOutChans$1, (*wsConn).handleChanOut, (*handler).handle, (*wsConn).handleResponse, (*wsConn).handleChanMessage, (*client).makeOutChan$1$1, (*client).makeOutChan$1$2, (*wsConn).handleFrame
-//@ property C08 units: (*wsConn).handleOutChans, (*wsConn).handleChanClose, (*wsConn).closeChans, (*wsConn).handleChanMessage, (*wsConn).tryReconnect, (*wsConn).handleWsConn, (*client).makeOutChan$1$1, (*client).makeOutChan$1$2, (*wsConn).handleResponse
-//@ property C11 units: (*handler).createError, (*Errors).Register, NewErrors, (*JSONRPCError).val, (*JSONRPCError).Error, (*rpcFunc).processResponse, (*rpcFunc).processError, (*handler).handle, (response).MarshalJSON, processFuncOut, (*wsConn).handleResponse
-//@ property C01 units: processFuncOut, (*param).MarshalJSON, (*param).UnmarshalJSON, (*client).makeRpcFunc, (*client).provide, (*rpcFunc).handleRpcCall, (*rpcFunc).processResponse, (*rpcFunc).processError, (*client).sendRequest, NewCustomClient$1, httpClient$1, (*client).setupRequestChan$1, (*handler).register, (*handler).handle, doCall, (response).MarshalJSON, (*wsConn).handleResponse, (*wsConn).handleCall, NewMethodNameFormatter$1, (*RPCServer).AliasMethod
+//@ property C08 units: (*wsConn).handleChanOut, (*wsConn).handleOutChans, (*wsConn).handleChanClose, (*wsConn).closeChans, (*wsConn).handleChanMessage, (*wsConn).tryReconnect, (*wsConn).handleWsConn, (*client).makeOutChan$1$1, (*client).makeOutChan$1$2, (*wsConn).handleResponse
+//@ property C11 units: WithErrors$1, WithServerErrors$1, (*client).setupRequestChan$1, (*handler).createError, (*Errors).Register, NewErrors, (*JSONRPCError).val, (*JSONRPCError).Error, (*rpcFunc).processResponse, (*rpcFunc).processError, (*handler).handle, (response).MarshalJSON, processFuncOut, (*wsConn).handleResponse
+//@ property C01 units: defaultConfig, defaultServerConfig, processFuncOut, (*param).MarshalJSON, (*param).UnmarshalJSON, (*client).makeRpcFunc, (*client).provide, (*rpcFunc).handleRpcCall, (*rpcFunc).processResponse, (*rpcFunc).processError, (*client).sendRequest, NewCustomClient$1, httpClient$1, (*client).setupRequestChan$1, (*handler).register, (*handler).handle, doCall, (response).MarshalJSON, (*wsConn).handleResponse, (*wsConn).handleCall, NewMethodNameFormatter$1, (*RPCServer).AliasMethod
 //@ property C13 units: doCall, (*handler).handle, rpcError$1
 
 //@ -- ------------------------------------------------------------------ shared vocabulary
@@ -52,6 +52,11 @@ package jsonrpc
 //@ unsync wsConn.stopPings: called by the connection loop and the reconnect goroutine, which never run the call concurrently (reconnect goroutine is started by the loop and replaces it before the loop reads it again: not checked)
 //@ unsync wsConn.incoming: replaced by the connection loop only while no reader goroutine is running (not checked)
 //@ unsync wsConn.chanCtr: accessed with sync/atomic only
+//@ -- prohibitions: these calls do not occur in the module; introducing one breaks the stated discipline
+//@ global-forbid at call (*github.com/gorilla/websocket.Conn).WriteControl: assert control-frames-also-under-writeLk: heldclass("wsConn.writeLk") [C14]
+//@ global-forbid at call (*github.com/gorilla/websocket.Conn).SetWriteDeadline: assert no-sticky-write-deadline-shared-by-all-writers: false [C14]
+//@ global-forbid at call sync/atomic.StoreUint64: assert channel-id-counter-only-grows: false [C07,C08]
+//@ global-forbid at call sync/atomic.StoreInt64: assert request-id-counter-only-grows: false [C02]
 //@ chaninv wsConn.readError: read-errors-are-errors: $val != nil [C03]
 //@ ghostmap failedCall(U) Bool
 //@ ghostmap regPair(U) Bool
@@ -92,6 +97,7 @@ package jsonrpc
 //@ func (*wsConn).setupPings
 
 //@ func (*wsConn).resetReadDeadline
+//@   ensures deadline-renewed-whenever-a-timeout-is-configured: c.timeout > 0 ==> calls(SetReadDeadline) == 1 [C03]
 
 //@ func (*wsConn).handleWsConn
 //@   initphase
@@ -125,6 +131,7 @@ package jsonrpc
 //@   at send req.ready: assert local-completion-shape: (req.req.ID != nil ==> $val.Error != nil && $val.Error.Code == -1111111 && $val.ID == req.req.ID && !registered && defined(hasErr) && hasErr) && (req.req.ID == nil ==> $val.ID == nil && $val.Result == nil) [C03,C04]
 //@   loop 1 invariant reader-channel: c.incoming != nil && chancap(c.incoming) == 0 [C03,C10]
 //@   ensures exits-only-for-a-cause: branch == 1 || branch == 2 || ((branch == 3 || branch == 4) && reconnectFailed) || (branch == 3 && err == nil) || (branch == 5 && c.connFactory == nil) [C03,C05]
+//@   at store wsConn.readError: assert read-failure-report-never-blocks-a-dead-loop: chancap($val) == 1 [C15,C03]
 //@   at store wsConn.incoming: assert reader-channel-unbuffered: chancap($val) == 0 && $val != nil && !closed($val) [C03,C10]
 //@   at call context.WithCancel: assert connection-context-derives-from-caller: $0 == ctx [C15]
 //@   at ret context.WithCancel: let cctx = $result0
@@ -178,6 +185,10 @@ package jsonrpc
 //@   at call reflect.ValueOf: assert value-and-close-tagged-with-own-channel-id: (calls(Select) >= 1 && istype($0, #uint64)) ==> regPair(pairOf(selCh, unbox($0, #uint64))) [C07,C08]
 //@   at call sendRequest: assert forwarded-as-notification: $1.ID == nil && $1.Params == rp && $1.Method == ite(ok, "xrpc.ch.val", "xrpc.ch.close") [C07,C08]
 //@   at call encoding/json.Marshal: assert forwards-the-received-value: true [C07]
+//@   ghost sendFailed : Bool = false
+//@   at ret reflect.Select: set sendFailed = false
+//@   at ret sendRequest: set sendFailed = $result0 != nil && ok
+//@   ensures forwarder-stops-only-when-connection-ends-or-a-value-write-fails: ((chosen == 0 || chosen == 1) && !ok) || sendFailed [C07,C08,C15]
 
 //@ func (*wsConn).closeInFlight
 //@   at lock wsConn.inflightLk: let tbl = c.inflight
@@ -304,6 +315,7 @@ package jsonrpc
 //@   at recv c.frameExecQueue: set handled = 0
 //@   at recv c.frameExecQueue: let buf0 = $val
 //@   at call encoding/json.Unmarshal: assert decodes-the-dequeued-frame: $0 == buf0 [C02,C04]
+//@   at call encoding/json.Unmarshal: assert decodes-into-a-zeroed-frame: frame.ID == nil && frame.Method == "" && len(frame.Params) == 0 && len(frame.Result) == 0 && frame.Error == nil && frame.Meta == nil [C04,C02,C09]
 //@   at call handleFrame: assert each-frame-dispatched-at-most-once: handled == 0 && idok($2.ID) [C02,C04,C10]
 //@   at call handleFrame: assert handlers-inherit-connection-context: $1 == ctx [C15,C06]
 //@   at recv ctx.Done(): assert stops-with-connection-context: true [C15]
@@ -392,6 +404,10 @@ package jsonrpc
 //@   at call createError: assert error-built-from-the-handlers-error-output: calls(doCall) == 1 && handler.errOut != -1 [C11]
 //@   at call doCall: assert dispatches-selected-handler: $1 == selected(s, req.Method).handlerFunc && $0 == req.Method && resolvable(s, req.Method) [C12,C01]
 //@   at call doCall: assert arity-checked-before-call: handler.hasRawParams || (defined(ps) && len(ps) == handler.nParams) [C12,C09]
+//@   ghost paramsDecoded : Bool = false
+//@   at call encoding/json.Unmarshal: assert decodes-the-requests-params: $0 == req.Params [C12,C01]
+//@   at ret encoding/json.Unmarshal: set paramsDecoded = true
+//@   at call doCall: assert counted-params-are-the-requests-params: handler.hasRawParams || len(req.Params) == 0 || paramsDecoded [C12,C09,C01]
 //@   at call doCall: assert nothing-rejected-before-call: calls(rpcError) == 0 && calls(doCall) == 0 [C12,C04,C09]
 //@   ensures at-most-one-reply: calls(rpcError) + calls(withLazyWriter) <= 1 [C09,C02]
 //@   ensures id-bearing-gets-exactly-one-reply: req.ID != nil && !chanDeferred ==> calls(rpcError) + calls(withLazyWriter) == 1 [C09,C02]
@@ -403,7 +419,7 @@ package jsonrpc
 //@   at call xerrors.Errorf: set lastMsg = $0
 //@   at call dyn:rpcError: assert codes-match-causes: (lastMsg == "wrong param count (method '%s'): %d != %d" ==> $2 == -32602) && (lastMsg == "method '%s' not found" ==> $2 == -32601) && ($2 == -32602 ==> len(ps) != handler.nParams) && ($2 == -32601 ==> !resolvable(s, req.Method) || chOut == nil) && ($2 == 0 ==> callErr != nil) [C09,C12]
 //@   loop 1 invariant arity-checked-before-decoding: len(ps) == handler.nParams [C09,C12]
-//@   loop 1 invariant nothing-replied-or-run-yet: rpcCode == 0 && calls(rpcError) == 0 && calls(doCall) == 0 && calls(withLazyWriter) == 0 && callErr == nil && !chanDeferred [C09,C12,C13,C04]
+//@   loop 1 invariant nothing-replied-or-run-yet: rpcCode == 0 && calls(rpcError) == 0 && calls(doCall) == 0 && calls(withLazyWriter) == 0 && callErr == nil && !chanDeferred && (len(req.Params) == 0 || paramsDecoded) [C09,C12,C13,C04]
 //@   ensures panic-gets-one-error-reply: callErr != nil ==> calls(rpcError) == 1 && calls(withLazyWriter) == 0 [C13,C09]
 //@   nopanic [C10]
 
@@ -477,6 +493,7 @@ package jsonrpc
 //@   at maplookup Errors.byCode: let rtype = $val
 //@   at call reflect.New: assert builds-a-value-of-the-registered-type: $0 == ite(KindOf(rtype) == 22, ElemT(rtype), rtype) [C11]
 //@   at ret reflect.New: set built = $result0
+//@   at call (reflect.Type).Implements: assert capability-checked-on-the-built-values-type: $0 == rtypeOf(built) [C11]
 //@   at ret (RPCErrorCodec).FromJSONRPCError: set failed = failed || $result0 != nil
 //@   at call (marshalable).UnmarshalJSON: assert meta-handed-to-the-registered-type: $1 == e.Meta && len(e.Meta) > 0 [C11]
 //@   at ret (marshalable).UnmarshalJSON: set failed = failed || $result0 != nil
@@ -506,7 +523,10 @@ package jsonrpc
 //@   may_panic
 //@   requires tables-allocated: s.methods != nil && s.methodNameFormatter != nil [C12,C01]
 //@   modifies handler.methods
-//@   loop 2 invariant raw-needs-param: i >= 0 && (hasRawParams ==> ins >= 1) [C12,C01,C10]
+//@   requires existing-entries-wellformed: handlersOK(s) [C12,C01,C10]
+//@   loop 1 invariant table-stays-wellformed: handlersOK(s) [C12,C01,C10]
+//@   loop 2 invariant raw-needs-param: i >= 0 && (hasRawParams ==> ins >= 1) && handlersOK(s) [C12,C01,C10]
+//@   ensures table-wellformed-after-registration: handlersOK(s) [C12,C01,C10]
 //@   at ret dyn:s.methodNameFormatter: let fmtRes = $result0
 //@   at call dyn:s.methodNameFormatter: assert formats-namespace-and-method-name: $0 == namespace && $1 == method.Name [C12]
 //@   at mapset handler.methods: assert registered-under-formatted-name: $key == fmtRes [C12]
@@ -574,9 +594,12 @@ package jsonrpc
 
 //@ func websocketClient
 //@   may_panic
+//@   nosafety
+//@   loop 1 invariant reverse-handler-table-wellformed: handlersOK(h) [C10,C12,C16]
 //@   at store handler.aliasedMethods: assert reverse-handler-uses-configured-aliases: $val == config.aliasedHandlerMethods [C16,C12]
 //@   at call (*handler).register: assert reverse-handlers-registered-under-their-namespace: $1 == reverseHandler.ns && $2 == reverseHandler.hnd [C16,C12]
 //@   at store wsConn.handler: assert connection-dispatches-to-reverse-handler: len(config.reverseHandlers) > 0 ==> $val != nil [C16]
+//@   at store wsConn.handler: assert no-handler-means-nil-interface: len(config.reverseHandlers) == 0 ==> $val == nil [C10]
 //@   at store wsConn.exiting: assert closer-waits-on-this-connections-exit: $val == exiting [C16,C18]
 //@   at store wsConn.connFactory: assert no-reconnect-drops-the-dial-factory: config.noReconnect ==> $val == nil [C05]
 //@   at store wsConn.reconnectBackoff: assert uses-configured-backoff: $val == config.reconnectBackoff [C05]
@@ -587,14 +610,19 @@ package jsonrpc
 //@   at send requests: assert enqueues-the-callers-request-first: calls(Marshal) == 0 ==> $val == cr [C02,C04]
 //@   at recv ctxDone: set pendingCancel = true
 //@   at call reflect.ValueOf: assert cancel-names-the-waiting-call: $0 == cr.req.ID [C06]
-//@   at send requests: assert cancel-message-shape: calls(Marshal) == 1 ==> $val.req.Method == "xrpc.cancel" && $val.req.ID == nil && $val.req.Params == rp && $val.ready != nil [C06]
+//@   at send requests: assert cancel-message-shape: calls(Marshal) == 1 ==> $val.req.Method == "xrpc.cancel" && $val.req.ID == nil && $val.req.Params == rp && $val.ready != nil && isfreshchan($val.ready) [C06,C02]
 //@   at send requests: set pendingCancel = false
+//@   ghost exitBeforeEnqueue : Bool = false
+//@   ghost mErr : Bool = false
+//@   at recv c.exiting: set exitBeforeEnqueue = exitBeforeEnqueue || calls(Marshal) == 0
+//@   at ret encoding/json.Marshal: set mErr = $result1 != nil
 //@   at recv c.exiting: set pendingCancel = false
 //@   at recv c.exiting: assert exit-alternative-present: true [C03,C15,C16]
 //@   at makechan: assert cancel-mailbox-buffered: chancap($chan) == 1 [C15]
 //@   loop 1 invariant cancel-never-silently-dropped: !pendingCancel && calls(Marshal) <= 1 [C06]
 //@   at recv cr.ready: let got = $val
 //@   ensures returns-what-arrived-in-own-mailbox: result1 == nil ==> defined(got) && result0 == got [C02]
+//@   ensures gives-up-only-when-client-exits-or-cancel-cannot-be-encoded: result1 != nil ==> exitBeforeEnqueue || mErr [C11,C02,C03]
 
 //@ func (*rpcFunc).handleRpcCall
 //@   may_panic
@@ -673,7 +701,8 @@ package jsonrpc
 //@   at ret (*client).setupRequestChan: let rq = $result0
 //@   at store wsConn.requests: assert connection-serves-this-clients-queue: $obj == conn && $val == rq [C16]
 //@   at call (*client).provide: assert proxy-filled-by-this-client: isfresh($0) && calls(setupRequestChan) == 1 [C16]
-//@   at call context.WithValue: assert stored-under-type-key-in-callers-context: $0 == ctx && $2 == box(calls) [C16]
+//@   at call context.WithValue: assert stored-under-type-key-in-callers-context: $0 == ctx && $2 == box(calls) && isfresh(calls) [C16]
+//@   at call (*client).provide: assert proxy-struct-is-per-connection: isfresh(calls) [C16]
 //@   ensures error-or-context: result1 == nil ==> result0 != nil && ctxParent(result0) == ctx [C16]
 
 //@ func ExtractReverseClient
@@ -728,3 +757,16 @@ package jsonrpc
 //@   at call encoding/json.Marshal: assert marshals-the-wrapped-value: $0 == ifaceOf(p.v) && KindOf(rtypeOf(p.v)) != 0 [C01]
 //@   ensures raw-bytes-pass-through: KindOf(rtypeOf(p.v)) == 0 ==> result0 == p.data && result1 == nil && calls(Marshal) == 0 [C01]
 //@   ensures value-marshalled-once: KindOf(rtypeOf(p.v)) != 0 ==> calls(Marshal) == 1 [C01]
+
+//@ func WithErrors$1
+//@   at store Config.errors: assert error-table-passed-through-unchanged: $val != nil && $val.byCode == es.byCode && $val.byType == es.byType [C05,C11]
+
+//@ func WithServerErrors$1
+//@   at store ServerConfig.errors: assert error-table-passed-through-unchanged: $val != nil && $val.byCode == es.byCode && $val.byType == es.byType [C11]
+
+//@ func defaultConfig
+//@   ensures every-client-gets-its-own-option-maps: isfresh(result.paramEncoders) && isfresh(result.aliasedHandlerMethods) [C01,C12,C16]
+
+//@ func defaultServerConfig
+//@   ensures every-server-gets-its-own-option-maps: isfresh(result.paramDecoders) [C01,C12]
+//@   ensures starts-without-custom-decoders: result.paramDecoders != nil && (forall t: U :: !present(result.paramDecoders, t)) [C01,C12,C10]
